@@ -269,6 +269,7 @@ def run(F, R, tier):
     R.floor("functions editing Instructions.code/lines", n_ed, 3)
 
     scanner_line_rule(F, R)
+    line_table_identity_rule(F, R)
 
 
 def scanner_line_rule(F, R):
@@ -352,3 +353,58 @@ def scanner_line_rule(F, R):
             R.ob("token-line-provenance", "%s: `%s` is a snapshot of %s" % (H.last(p), f, sorted(src)), bool(counters) and not late,
                  ("taken before %s runs: tokens after the skipped text carry a stale line" % sorted(set(late))) if late else
                  ("snapshot of the live counter, taken after the skipping" if counters else "not derived from a newline counter"), F.loc(g, x.get("line")))
+
+
+def line_table_identity_rule(F, R):
+    """A function's line table travels with its code.  (a) Equality of Instructions, where hand-written, compares every
+    field — comparing the code only makes two functions with the same bytes on different lines 'equal'; (b) the constant
+    slot a Closure instruction names is a slot freshly pushed for that very function: the index comes from add_constant
+    (or from a helper every path of which calls add_constant), and add_constant pushes on every path.  Together: a
+    function never runs with another function's line table."""
+    adt = F.adts.get("code::definitions::Instructions")
+    eq = F.fn("<code::definitions::Instructions as std::cmp::PartialEq>::eq")
+    if adt is not None and eq is not None and H.body_of(eq) is not None:
+        flds = [fl.get("name") for v in adt.get("variants", []) for fl in v.get("fields", [])]
+        used = {}
+        for x in H.walk(H.body_of(eq)):
+            if x.get("k") == "field" and x.get("name") in flds:
+                base = H.render(H.strip(x["e"]))
+                used.setdefault(x["name"], set()).add(base)
+        missing = [f_ for f_ in flds if len(used.get(f_, ())) < 2]
+        R.ob("line-table-identity", "Instructions::eq compares every field of both operands", not missing,
+             "fields not compared: %s" % missing if missing else "compares %s" % flds, F.loc(eq))
+    C = "compiler::Compiler::"
+    ac = F.fn(C + "add_constant")
+    if R.anchor(C + "add_constant", ac and ac.get("mir")):
+        B = M.Body(ac)
+        pushes = M.call_blocks(B, lambda t: (t.get("callee") or "").endswith("Vec::<T, A>::push"))
+        free = M.reachable_avoiding(B, 0, pushes) if pushes else set(range(B.n))
+        rets = sorted(free & M.return_blocks(B))
+        R.ob("line-table-identity", "add_constant appends a new slot on every path", bool(pushes) and not rets,
+             "returns without a push: bb%s" % rets if rets or not pushes else "constants.push dominates every return", F.loc(ac))
+    fl = F.fn(C + "compile_function_literal")
+    if R.anchor(C + "compile_function_literal", fl):
+        b = H.body_of(fl)
+        lets = {x["pat"]["id"]: x["init"] for x in H.walk(b) if x.get("k") == "let" and x.get("pat", {}).get("k") == "bind" and x.get("init") is not None}
+        ems = [c for c in H.walk(b) if c.get("k") in ("call", "mcall") and (c.get("callee") or "") == C + "emit" and
+               H.last(H.ctor_of(H.strip(c["args"][0])) or "") == "Closure"]
+        ok, det = bool(ems), "no emit(Closure, ..)"
+        for c in ems:
+            arr = H.strip(c["args"][1])
+            first = H.strip(arr["es"][0]) if arr.get("k") == "array" and arr.get("es") else None
+            src = H.strip(H.untry(H.strip(lets.get(H.local_id(first))))) if first is not None and H.is_local(first) and H.local_id(first) in lets else first
+            cal = (src or {}).get("callee") or ""
+            det = "constant index = %s" % (H.render(src)[:60] if src else "?")
+            if cal == C + "add_constant":
+                continue
+            g2 = F.fn(cal)
+            if g2 is not None and g2.get("mir") and cal.startswith(C):
+                B2 = M.Body(g2)
+                q = M.call_blocks(B2, lambda t: t.get("callee") == C + "add_constant")
+                free = M.reachable_avoiding(B2, 0, q) if q else set(range(B2.n))
+                rets = sorted(free & M.return_blocks(B2))
+                if q and not rets:
+                    continue
+                det += "; %s can return an index without calling add_constant (an existing slot is reused)" % H.last(cal)
+            ok = False
+        R.ob("line-table-identity", "the constant a Closure instruction names is a slot pushed for that function", ok, det, F.loc(fl))
